@@ -138,9 +138,6 @@ func (x *Exec) modelWriteBinaryStruct(st *State, args []Value) Value {
 	lay, total := layoutOf(t)
 	bufV := x.load(st, bp).(StructV)
 	old := bufV.F[0].(SliceV)
-	if !(old.Len.IsConst() && old.Len.Val == 0) {
-		fail("writeBinaryStruct model: only an empty buffer is modelled")
-	}
 	cur := x.load(st, p)
 	arr := ConstArr(ArrS(BV(64), BV(8)), Const(8, 0))
 	for _, lf := range lay {
@@ -157,9 +154,25 @@ func (x *Exec) modelWriteBinaryStruct(st *State, args []Value) Value {
 		}
 	}
 	o := x.newObj(types.NewArray(types.Typ[types.Uint8], 1<<40), "bytes.Buffer#backing")
-	st.Heap[o.ID] = ArrayT{T: arr, Len: 1 << 40, Elem: types.Typ[types.Uint8]}
 	nb := StructV{F: append([]Value(nil), bufV.F...)}
-	nb.F[0] = SliceV{Obj: o, Off: Const(64, 0), Len: Const(64, uint64(total)), Cap: Const(64, uint64(total))}
+	if old.Len.IsConst() && old.Len.Val == 0 {
+		st.Heap[o.ID] = ArrayT{T: arr, Len: 1 << 40, Elem: types.Typ[types.Uint8]}
+		nb.F[0] = SliceV{Obj: o, Off: Const(64, 0), Len: Const(64, uint64(total)), Cap: Const(64, uint64(total))}
+	} else {
+		// the buffer already holds bytes: the serialisation is appended after them
+		if old.Obj == nil {
+			fail("writeBinaryStruct model: non-empty buffer without backing")
+		}
+		oa, ok := x.getPath(x.heapGet(st, old.Obj), old.Base).(ArrayT)
+		if !ok {
+			fail("writeBinaryStruct model: buffer backing %T", x.getPath(x.heapGet(st, old.Obj), old.Base))
+		}
+		j := Bound(fmt.Sprintf("j_b%d", x.nextFresh()), BV(64))
+		content := Lambda(j, Ite(cmp("bvult", j, old.Len), Select(oa.T, bin("bvadd", old.Off, j)), Select(arr, bin("bvsub", j, old.Len))))
+		st.Heap[o.ID] = ArrayT{T: content, Len: 1 << 40, Elem: types.Typ[types.Uint8]}
+		n := bin("bvadd", old.Len, Const(64, uint64(total)))
+		nb.F[0] = SliceV{Obj: o, Off: Const(64, 0), Len: n, Cap: n}
+	}
 	x.store(st, bp, nb)
 	return IfaceV{}
 }
